@@ -85,10 +85,12 @@ func (s *snapshot) getParts(dst []*part, cache storage.Cache, minTimestamp, maxT
 
 func (s *snapshot) incRef() {
 	atomic.AddInt32(&s.ref, 1)
+	verifSnapshotRef(s, 1, 0)
 }
 
 func (s *snapshot) decRef() {
 	n := atomic.AddInt32(&s.ref, -1)
+	verifSnapshotRef(s, -1, n)
 	if n > 0 {
 		return
 	}
